@@ -14,3 +14,10 @@ Proof. vm_compute. reflexivity. Qed.
    C01_msh_roundtrip) *)
 Theorem C01_rebind_by_id : rebind_by_id = true.
 Proof. vm_compute. reflexivity. Qed.
+
+(* blocks of the same group name / initial-condition type are merged by the
+   reader: with it, C01_read_format_insensitive (c) covers !EGROUP and
+   !INITIAL CONDITION blocks too *)
+Theorem C01_same_name_blocks_merged :
+  merge_egroups = true /\ merge_initial = true /\ merge_ngroups = true.
+Proof. vm_compute. repeat split. Qed.
